@@ -117,6 +117,11 @@ pub struct Scenario {
     /// after the other needs a handful of descriptors however many FILE arguments it gets
     #[serde(default)]
     pub nofile_limit: u32,
+    /// the inputs are not regular files: every FILE argument is a FIFO fed by a writer and
+    /// standard input is a pipe (sizes reported by the file system are 0, reads return what the
+    /// writer has supplied so far, a seek fails)
+    #[serde(default)]
+    pub pipe_inputs: bool,
 }
 
 #[derive(Clone, Debug, Serialize, Deserialize)]
@@ -157,6 +162,8 @@ pub struct Counters {
     pub p_tall_input: u64,
     pub p_more_than_256_files: u64,
     pub p_descriptor_limit: u64,
+    pub p_pipe_inputs: u64,
+    pub p_fifo_files: u64,
     pub known_findings: u64,
 }
 
@@ -170,7 +177,7 @@ impl Counters {
             p_line_longer_than_buffer, p_pattern_file_trickled, p_two_files_no_filename,
             p_colored_runs, p_highlight_checked_lines, p_multibyte_highlight, p_dev_runs,
             p_release_runs, p_auto_colored, p_auto_plain, p_overlapping_occurrences,
-            p_empty_output, p_tall_input, p_more_than_256_files, p_descriptor_limit, known_findings
+            p_empty_output, p_tall_input, p_more_than_256_files, p_descriptor_limit, p_pipe_inputs, p_fifo_files, known_findings
         );
     }
 }
@@ -734,8 +741,29 @@ pub fn execute(sc: &Scenario, bins: &Bins, dir: &Path) -> RunResult {
         let mut f = std::fs::File::create(dir.join(name)).expect("harness: cannot write run file");
         f.write_all(data).expect("harness: cannot write run file");
     };
+    // pipe mode: FIFOs fed by writer threads. A writer hands over its whole content with one
+    // write call, which the kernel serves under the pipe's lock as long as it fits the pipe
+    // (64 KiB): the sizes the reader sees are then a function of its own requests only.
+    let mut feeders: Vec<std::thread::JoinHandle<()>> = vec![];
+    let mut fifos: Vec<PathBuf> = vec![];
     for (name, lines) in &sc.files {
-        w(name, &file_bytes(lines));
+        if sc.pipe_inputs {
+            let p = dir.join(name);
+            let cp = std::ffi::CString::new(p.as_os_str().as_encoded_bytes()).expect("harness: file name with NUL");
+            let rc = unsafe { libc::mkfifo(cp.as_ptr(), 0o600) };
+            assert!(rc == 0, "harness: mkfifo failed: {}", std::io::Error::last_os_error());
+            let data = file_bytes(lines);
+            let p2 = p.clone();
+            feeders.push(std::thread::spawn(move || {
+                // blocks until the reader opens the FIFO (or the harness releases it below)
+                if let Ok(mut f) = std::fs::OpenOptions::new().write(true).open(&p2) {
+                    let _ = f.write_all(&data);
+                }
+            }));
+            fifos.push(p);
+        } else {
+            w(name, &file_bytes(lines));
+        }
     }
     w("stdin.txt", &file_bytes(&sc.stdin_lines));
     if sc.p_count < sc.patterns.len() {
@@ -755,7 +783,7 @@ pub fn execute(sc: &Scenario, bins: &Bins, dir: &Path) -> RunResult {
         .env("IOFAULT_LOG", dir.join("io.log"))
         .env("IOFAULT_DIR", dir)
         .env("RUST_BACKTRACE", "0")
-        .stdin(Stdio::from(std::fs::File::open(dir.join("stdin.txt")).unwrap()))
+        .stdin(if sc.pipe_inputs { Stdio::piped() } else { Stdio::from(std::fs::File::open(dir.join("stdin.txt")).unwrap()) })
         .stdout(Stdio::from(std::fs::File::create(dir.join("out.bin")).unwrap()))
         .stderr(Stdio::from(std::fs::File::create(dir.join("err.txt")).unwrap()));
     if sc.nofile_limit > 0 {
@@ -778,6 +806,14 @@ pub fn execute(sc: &Scenario, bins: &Bins, dir: &Path) -> RunResult {
         cmd.env("NO_COLOR", "1");
     }
     let mut child = cmd.spawn().expect("harness: cannot spawn daacfind");
+    if sc.pipe_inputs {
+        if let Some(mut si) = child.stdin.take() {
+            let data = file_bytes(&sc.stdin_lines);
+            feeders.push(std::thread::spawn(move || {
+                let _ = si.write_all(&data);
+            }));
+        }
+    }
     let t0 = Instant::now();
     let mut timed_out = false;
     let status = loop {
@@ -796,6 +832,18 @@ pub fn execute(sc: &Scenario, bins: &Bins, dir: &Path) -> RunResult {
             }
         }
     };
+    // writers of FIFOs the process never opened (or stopped reading) are released: a reader that
+    // comes and goes lets their open() return and their write fail
+    for h in feeders {
+        while !h.is_finished() {
+            for p in &fifos {
+                use std::os::unix::fs::OpenOptionsExt;
+                drop(std::fs::OpenOptions::new().read(true).custom_flags(libc::O_NONBLOCK).open(p));
+            }
+            std::thread::sleep(Duration::from_micros(200));
+        }
+        let _ = h.join();
+    }
     use std::os::unix::process::ExitStatusExt;
     RunResult {
         status: status.and_then(|s| s.code()),
@@ -858,7 +906,18 @@ pub fn run(sc: &Scenario, bins: &Bins, dir: &Path, known_crlf: bool) -> Outcome 
     c.syscalls = calls.len() as u64;
     let mut h = DefaultHasher::new();
     r.log.hash(&mut h);
-    let trace_hash = h.finish();
+    let mut trace_hash = h.finish();
+    if sc.pipe_inputs {
+        c.p_pipe_inputs += 1;
+        c.p_fifo_files += sc.files.len() as u64;
+        if sc.files.iter().any(|f| file_bytes(&f.1).len() > 60_000) || file_bytes(&sc.stdin_lines).len() > 60_000 {
+            // more than a pipe holds: the sizes of the reads depend on how the writer is
+            // scheduled; the verdict does not, and the recorded interleaving must not either
+            let mut h = DefaultHasher::new();
+            (&r.stdout, r.status).hash(&mut h);
+            trace_hash = h.finish();
+        }
+    }
 
     // which file does an fd refer to at the time of a call? replay opens in log order
     let mut fd_file: std::collections::HashMap<i32, String> = Default::default();
@@ -1086,6 +1145,38 @@ fn gen_line(rng: &mut Rng, pats: &[String], long: bool, alpha: Option<&[&str]>) 
     let kind = rng.below(10);
     if kind == 0 {
         return s; // empty line
+    }
+    if !long && rng.chance(1, 12) {
+        // a line made of pattern occurrences only (every byte highlighted), of a length at or
+        // next to a machine-word boundary when the pattern lengths can be added up to it
+        let target = *rng.pick(&[7usize, 8, 9, 15, 16, 17, 31, 32, 33, 63, 64, 64, 65, 127, 128, 129, 255, 256, 257]);
+        let short: Vec<&String> = pats.iter().filter(|p| p.len() <= 64).collect();
+        if !short.is_empty() {
+            // reach[t] = a pattern that ends a sequence of exactly t bytes
+            let mut reach: Vec<Option<usize>> = vec![None; target + 1];
+            let start = rng.below(short.len());
+            for t in 1..=target {
+                for j in 0..short.len() {
+                    let i = (start + j + t) % short.len();
+                    let l = short[i].len();
+                    if l <= t && (t == l || reach[t - l].is_some()) {
+                        reach[t] = Some(i);
+                        break;
+                    }
+                }
+            }
+            let mut t = (1..=target).rev().find(|&t| reach[t].is_some()).unwrap_or(0);
+            let mut parts = vec![];
+            while t > 0 {
+                let i = reach[t].unwrap();
+                parts.push(short[i].as_str());
+                t -= short[i].len();
+            }
+            for p in parts.iter().rev() {
+                s.push_str(p);
+            }
+            return s;
+        }
     }
     // long lines: just over the reader's 8 KiB buffer, or exactly at / around the sizes of the
     // buffers involved (stdout's LineWriter: 1024, BufReader: 8192, pipe: 65536)
@@ -1322,8 +1413,14 @@ pub fn generate(seed: u64, cfg: &GenCfg) -> Scenario {
         p_layout: 0,
         flag_style: if rng.chance(1, 3) { rng.below(4) as u8 } else { 0 },
         nofile_limit,
+        pipe_inputs: false,
     };
-    if dup_file && mode != Mode::Hard {
+    // inputs that are not regular files (not with the same name twice: a FIFO is served once)
+    let want_pipes = !cfg.small && rng.chance(1, 7) && sc.files.len() <= 8;
+    if want_pipes && !(dup_file && mode != Mode::Hard) {
+        sc.pipe_inputs = true;
+    }
+    if dup_file && mode != Mode::Hard && !sc.pipe_inputs {
         // the same file given twice (not with hard faults: the relaxed oracle identifies the
         // failing input by name)
         let f = sc.files[rng.below(sc.files.len())].clone();
@@ -1586,9 +1683,10 @@ pub fn minimise(sc: &Scenario, class: &str, bins: &Bins, dir: &Path, known_crlf:
             shrink(&mut cur, &|c: &mut Scenario| &mut c.stdin_lines[i]);
         }
         // flags
-        for k in 0..7 {
+        for k in 0..8 {
             let mut c = cur.clone();
             match k {
+                7 => c.pipe_inputs = false,
                 5 => {
                     c.pat_file_layout = 0;
                     c.flag_style = 0;
